@@ -7,6 +7,7 @@ import (
 	"math/rand"
 	"os"
 	"sync"
+	"time"
 
 	"github.com/samber/ro"
 
@@ -42,7 +43,18 @@ func init() {
 			go func(i int) {
 				defer wg.Done()
 				defer func() { <-sem }()
-				res[i] = kernel.Run(i+1, scs[i], *seed*100003+int64(i))
+				// watchdog: a trace that does not finish (a lock left held, a Wait that never returns) is cut with a "hang" event,
+				// which no action of the trace specification explains
+				done := make(chan []rec.Ev, 1)
+				lg := &rec.Log{T: i + 1}
+				go func() { done <- kernel.RunWithLog(lg, scs[i], *seed*100003+int64(i)) }()
+				select {
+				case evs := <-done:
+					res[i] = evs
+				case <-time.After(60 * time.Second):
+					lg.Add(rec.Ev{E: "hang"})
+					res[i] = lg.Events()
+				}
 			}(i)
 		}
 		wg.Wait()
